@@ -513,6 +513,8 @@ def main(argv=None):
                 max_solver = max(max_solver, t)
                 if o['verdict'] in ('unknown', 'pending'):
                     inconclusive.append(f"{r['hid']}[{r['case_idx']}] path {path['trace'] or '-'} : {o['name']}")
+                    if a.verbose:
+                        print(f"  inconclusive {r['hid']}[{r['case_idx']}] {o['name']}: verdict={o['verdict']} how={o.get('how')} log={o.get('log')} npending={len(r.get('pending', []))} truncated={r.get('truncated')} keys={list(r.keys())}")
                 if len(samples) < 12 and o['verdict'] == 'proved' and o.get('formula') and o.get('how') != 'concrete':
                     samples.append(dict(harness=r['hid'], case=r['case'], path=path['trace'], obligation=o['name'],
                                         formula=o['formula'][:300], verdict=o['verdict'], by=o.get('solver') or o.get('how'),
